@@ -142,6 +142,15 @@ CLAIMS = {
          "is_tangent are compared per stratum (exact sets, contact point once or twice, conjugate pairs, facts for irrational "
          "points) for every quadric class.",
     design="5/C14", technique="TLC enumeration with discriminant-stratified exact intersection oracle + replay"),
+ "C15": dict(
+    text="C15_Degenerate.tla enumerates every ordered pair of lattice lines (all sign patterns, non-primitive representatives, "
+         "equal lines) and planes for from_lines/from_planes, certifies that the pair quadric contains exactly the lattice "
+         "points of its two components, and builds conic pairs from KNOWN common points: pencils through four lattice points "
+         "(second or first conic possibly degenerate), tangent pencils (double base point = repeated resolvent root), circle "
+         "pairs (I, J), concentric and tangent circles, conjugate Gaussian pairs, certified by 'base points on both, no other "
+         "lattice point on both'; geometer's is_degenerate/components (single and collection), NotReducible for irreducible "
+         "quadrics and Conic.intersect(Conic) (at most four, each on both, every common point present) are compared.",
+    design="5/C15", technique="TLC enumeration of component pairs and of conic pencils with known base points + replay"),
 }
 
 checks = []
